@@ -19,6 +19,9 @@ impl Fold<TextRange> for Shift {
 
 fuzz_target!(|data: &[u8]| {
     let Some(inp) = common::decode(data) else { return };
+    if common::too_deep(&inp.text) {
+        return;
+    }
     if inp.offset == 0 {
         return;
     }
